@@ -23,6 +23,34 @@ CLAIMS = {
         design_ref="5/C02",
         note=TRUST + "; table types LALR/LALR_PAGER; partial-parse conservativity is decided by oracle+correspondence only (no theorem yet)",
         technique="Lean 4 proof over executable model + verified table certificate + differential correspondence"),
+    "C04": dict(
+        category="proof",
+        text=("Theorems C04_cover_sound / C04_check_ok_means_verified: a passed Cover.check establishes FaithfulCompression — a relation "
+              "between the canonical LR(1) automaton (Canon.build: textbook items/CLOSURE/GOTO, the definition, written independently of "
+              "rustemo's algorithm) and the compiler's table that contains the start pair, is closed under the transitions of both "
+              "automata on exactly the same symbols, relates only equal item cores, gives every item exactly the union of the canonical "
+              "lookaheads (nothing lost, nothing invented) and every cell exactly the actions items+lookaheads prescribe (plus "
+              "right-nulled reductions for LALR_RN). Tie B: the verified checker runs on the real dumped table of every generated and "
+              "literature grammar x {LALR, LALR_PAGER, LALR_RN}; per table the comparison is complete. PARTIAL: universality over "
+              "grammars is by running the check on each generated grammar (no theorem about the construction algorithm); the "
+              "consequence 'deterministic => unambiguous' awaits the C01 completeness theorem; 'LALR(1) => conflict-free under state "
+              "splitting' is checked per grammar."),
+        design_ref="5/C04",
+        note=TRUST + "; Canon.build is the definition of canonical LR(1) (trusted, ~100 lines)",
+        technique="Lean 4 verified certificate checker (canonical LR(1) cover) run on the real table"),
+    "C17": dict(
+        category="proof",
+        text=("Theorems C17_cli_maps_to_settings (for every environment and every Cli value the builder calls of rcomp's main, transcribed "
+              "call by call, yield exactly the documented settings: negated flags, GLR overrides, explicit force), C17_cli_panics_exactly, "
+              "C17_unique_names_order_free_partial with C17_closed_form_agrees (choice-name de-duplication is independent of HashMap "
+              "iteration order whenever Types.clash = false) and the proved counterexample C17_counterexample_hash_order_leaks for the code "
+              "as it was (repaired by a fix: commit; the code now computes the order-free closed form). Tie C: source inventory (hash "
+              "iteration, env, globals, clocks, Cli fields, main builder calls) re-extracted each run against inventory/c17.json. Tie A: "
+              "random rcomp command lines over every option -> Lean Cli.run -> settings vector -> real Settings API vs real rcomp binary; "
+              "all written files byte-compared across CLI/API, K fresh processes, two in-process grammar orders."),
+        design_ref="5/C17",
+        note=TRUST + "; run-to-run byte equality itself is differential (processes, hash seeds), the theorem covers the logic that could break it",
+        technique="Lean 4 proof (CLI->settings map, order-independence) + source inventory + differential byte comparison"),
     "C13": dict(
         category="proof",
         text=("Theorems C13_position_after_append, C13_position_spec (position_after = 1 + newlines before / bytes since line start, "
